@@ -325,6 +325,32 @@ func checkC08(c *Ctx) {
 		c.Check(okReach, "C08.5", "OnRemoteTimeout: certificate reaches advanceView", p.Pos(call.Pos()),
 			"the sync info returned by RemoteTimeoutRule is passed to advanceView on every path where the rule succeeded",
 			"a successful RemoteTimeoutRule result can be dropped without calling advanceView")
+		// ... and a quorum reported by the collector reaches the rule: add hands the quorum over once and forgets it, so a
+		// return between add's "quorum" answer and the rule loses the certificate for that view for good
+		addFn := p.Method("protocol/synchronizer", "timeoutCollector", "add")
+		nAdd := 0
+		for _, ac := range callsIn(host, false, func(cc *ssa.CallCommon) bool { return addFn != nil && calleeIs(cc, addFn) }) {
+			addCall, isVal := ac.(*ssa.Call)
+			if !isVal {
+				continue
+			}
+			nAdd++
+			ak := hfl.K.Key(addCall)
+			w2 := cfgSearch(hfl, addCall, nil, isReturn, func(in ssa.Instruction) bool { return in == ssa.Instruction(call) }, func(fs []Fact) bool {
+				for _, f := range fs {
+					if f.Op == "false" && f.L == ak+"#1" {
+						return true
+					}
+				}
+				return false
+			})
+			c.Check(w2 == nil, "C08.5", "OnRemoteTimeout: a reported quorum reaches the timeout rule", p.Pos(addCall.Pos()),
+				"every path from add's quorum answer leads to RemoteTimeoutRule (only the no-quorum edge returns before it)",
+				"the handler can return at "+posOf(p, w2)+" after add reported a quorum and before RemoteTimeoutRule: the collected timeouts were handed over once and are gone, no certificate is built for that view")
+		}
+		if nAdd == 0 && host == fl.Fn {
+			c.Unresolved("C08.5", "OnRemoteTimeout: a reported quorum reaches the timeout rule", "no call of timeoutCollector.add in the function that calls the rule")
+		}
 	}
 	if nRule == 0 {
 		c.Unresolved("C08.4", "OnRemoteTimeout", "no RemoteTimeoutRule call below the handler")
